@@ -177,10 +177,10 @@ func (t *ttlMemCache) set(key string, value []byte, fns ...SetOptFn) error {
 	}
 	var node = &ttlNode{key: key, value: value, deadline: deadline(o.ttl)}
 	ele = t.eleList.PushFront(node)
+	t.eleHash[key] = ele
 	if t.eleList.Len() > t.size {
 		t.removeTail()
 	}
-	t.eleHash[key] = ele
 	return nil
 }
 
